@@ -8,7 +8,9 @@ Space (every member is visited, nothing sampled):
              ProdSequence symbol ("rows", 11); MapProds: brackets x allow_final_delimiter x optional x
              key symbol terminal / choice non-terminal x value symbol = VALUE / the key symbol itself (32);
              ProdSequence over the template symbols directly or over VALUE; productions declared top-down
-             and bottom-up (leaves first, start symbol last).
+             and bottom-up (leaves first, start symbol last); a "statements" family adds
+             VALUE -> '%' SEQ ';' | '%' WORD SEQ '.' (alternatives that cannot be factorized: the sequence of
+             the second one is entered again, one token later, after a roll-back out of the first).
              quick: every list configuration with the default map and vice versa plus six crossings, each
              in both declaration orders (sequence over the template symbols; over VALUE for the default
              pair and the crossings);
@@ -74,6 +76,9 @@ REQUIRED_FEATURES = [
     "mopt:brackets", "mopt:no-brackets", "mopt:afd-true", "mopt:afd-false", "mopt:optional",
     "mopt:key-nonterminal", "mopt:key-symbol-is-value-symbol", "lopt:item-symbol-is-a-sequence",
     "row", "list-in-row", "map-in-row", "seq-in-row", "fd:after-last-row", "order:top-down", "order:bottom-up",
+    "family:statements", "plain-stmt", "named-stmt", "seq:entered-after-rollback",
+    "seq:entered-after-rollback:len0", "seq:entered-after-rollback:len1", "seq:entered-after-rollback:len2",
+    "list-in-named-stmt", "map-in-named-stmt", "named-stmt-in-seq", "named-stmt-in-list",
     "layout:exotic", "gap:eol-comment-with-exotic-line-break", "gap:exotic-line-break-as-blank",
     "gap:span-comment-with-exotic-line-break", "seq:direct-symbols", "seq:via-value",
     "fd:allowed", "fd:forbidden", "fd:nullable-not-allowed",
@@ -98,20 +103,23 @@ TOKENIZER = r"""
     |(?P<GT>>)
     |(?P<PO>\()
     |(?P<PC>\))
+    |(?P<PCT>%)
+    |(?P<DOT>\.)
 """
 SYNONYMS = {"COMMA": ",", "COLON": ":", "SEMI": ";", "AT": "@", "BO": "[", "BC": "]", "CO": "{", "CC": "}",
-            "LT": "<", "GT": ">", "PO": "(", "PC": ")", "COMMENT_EOL": "COMMENT", "COMMENT_ML": "COMMENT"}
+            "LT": "<", "GT": ">", "PO": "(", "PC": ")", "PCT": "%", "DOT": ".", "COMMENT_EOL": "COMMENT", "COMMENT_ML": "COMMENT"}
 SPAN = {"COMMENT_ML": r"(?P<BODY>.*?)\*/"}
 
 _TIERS = {
     # layouts: on every value / additionally on values of <= layout_size nodes
     "quick": {"size": 4, "depth": 3, "width": 3, "big_size": 0,
               "layouts": ("mixed",), "more_layouts": ("exotic", "tight", "newline", "comment"), "layout_size": 3,
-              "fd": (("all", "tight"),), "big_fd": (), "bottom_up_layouts": ("mixed",)},
+              "fd": (("all", "tight"),), "big_fd": (), "bottom_up_layouts": ("mixed",), "stmt_size": 3,
+              "stmt_big_size": 0},
     "thorough": {"size": 4, "depth": 4, "width": 4, "big_size": 5,
                  "layouts": ("mixed",), "more_layouts": ("exotic", "tight", "space", "newline", "comment"),
                  "layout_size": 3, "fd": (("all", "tight"), ("inner", "exotic")), "big_fd": (("all", "tight"),),
-                 "bottom_up_layouts": ("mixed", "exotic")},
+                 "bottom_up_layouts": ("mixed", "exotic"), "stmt_size": 3, "stmt_big_size": 4},
 }
 SEQ_VARIANTS = ("direct", "value")
 
@@ -171,7 +179,10 @@ def shards(tier):
         dflt = (T.L_DEFAULT.key(), T.M_DEFAULT.key())
         return ([("small", lk, mk, "direct", "top-down") for lk, mk in small] +
                 [("small", lk, mk, "direct", "bottom-up") for lk, mk in small] +
-                [("small", lk, mk, "value", "top-down") for lk, mk in [dflt] + small[-N_CROSSINGS:]])
+                [("small", lk, mk, "value", "top-down") for lk, mk in [dflt] + small[-N_CROSSINGS:]] +
+                # statements '%' SEQ ';' | '%' WORD SEQ '.': a sequence entered again after a roll-back
+                [("stmt", dflt[0], dflt[1], sv, order) for sv in SEQ_VARIANTS for order in ORDERS] +
+                [("stmt", lk, mk, "direct", "top-down") for lk, mk in small[-N_CROSSINGS:]])
     # thorough: the full product with the sequence over the template symbols; the sequence over VALUE and
     # the bottom-up declaration order with the core (= quick) grammar set; values of big_size nodes on
     # the core set
@@ -179,24 +190,40 @@ def shards(tier):
     sh += [("small", lk, mk, "value", "top-down") for lk, mk in big]
     sh += [("small", lk, mk, sv, "bottom-up") for lk, mk in big for sv in SEQ_VARIANTS]
     sh += [("big", lk, mk, "direct", "top-down", i) for lk, mk in big for i in range(BIG_SLICES)]
+    dflt = (T.L_DEFAULT.key(), T.M_DEFAULT.key())
+    sh += [("stmt", lk, mk, "direct", "top-down") for lk, mk in big]
+    sh += [("stmt", dflt[0], dflt[1], sv, order) for sv in SEQ_VARIANTS for order in ORDERS
+           if (sv, order) != ("direct", "top-down")]
+    sh += [("stmtbig", lk, mk, "direct", "top-down") for lk, mk in [dflt] + big[-N_CROSSINGS:]]
     return sh
 
 
 # ------------------------------------------------------------------------------- real grammar
-def build_parser(lopt, mopt, seqvar, order="top-down"):
+def build_parser(lopt, mopt, seqvar, order="top-down", stmts=False):
     ls = "LWRAP" if lopt.wrapped else "LIST"
     ms = "MWRAP" if mopt.wrapped else "MAP"
     key = "KEY" if mopt.key_nt else "WORD"
     val = key if mopt.val_same else "VALUE"        # val_same: MapProds('{', 'WORD', ':', 'WORD', ',', '}')
     item = "ROW" if lopt.item_seq else "ITEM"      # item_seq: the item symbol is itself a ProdSequence symbol
 
+    extra = ["STMT"] if stmts else []
+
     def seq():
-        return impl.ProdSequence("VALUE") if seqvar == "value" else impl.ProdSequence("WORD", ls, ms, "SWRAP")
+        return (impl.ProdSequence("VALUE") if seqvar == "value"
+                else impl.ProdSequence("WORD", ls, ms, "SWRAP", *extra))
 
     prods = {
         "E": [("VALUE",)],
-        "VALUE": [("WORD",), (ls,), (ms,), ("SWRAP",)],
+        "VALUE": [("WORD",), (ls,), (ms,), ("SWRAP",)] + [(x,) for x in extra],
     }
+    if stmts:
+        # two alternatives that start with different symbols (no common prefix to factorize): PLAIN is tried
+        # first, swallows the name and all elements as one sequence, fails at '.', the parser rolls back and
+        # NAMED enters the sequence again one token later
+        prods["STMT"] = [("%", "PLAIN"), ("%", "NAMED")]
+        prods["PLAIN"] = [("PSEQ", ";")]
+        prods["NAMED"] = [("WORD", "PSEQ", ".")]
+        prods["PSEQ"] = seq()
     # wrappers: the closing token reaches the (nullable) template symbol through two enclosing symbols, so
     # its FOLLOW set needs several propagation steps
     if lopt.wrapped:
@@ -233,24 +260,24 @@ _PARSERS = {}
 _SPACES = {}
 
 
-def _parser(lk, mk, sv, order):
-    k = (tuple(lk), tuple(mk), sv, order)
+def _parser(lk, mk, sv, order, stmts=False):
+    k = (tuple(lk), tuple(mk), sv, order, stmts)
     p = _PARSERS.get(k)
     if p is None:
         if len(_PARSERS) > 64:
             _PARSERS.clear()
-        p = _PARSERS[k] = build_parser(_lopt(lk), _mopt(mk), sv, order)
+        p = _PARSERS[k] = build_parser(_lopt(lk), _mopt(mk), sv, order, stmts)
     return p
 
 
-def _space(lopt, mopt, depth, width):
+def _space(lopt, mopt, depth, width, stmts=False):
     k = (lopt.nullable, lopt.item_seq, bool(lopt.afd_effective and lopt.delim), bool(lopt.optional),
-         bool(mopt.optional), mopt.val_same, depth, width)
+         bool(mopt.optional), mopt.val_same, depth, width, stmts)
     s = _SPACES.get(k)
     if s is None:
         if len(_SPACES) >= 2:
             _SPACES.clear()             # the size-5 value lists are large; keep at most two spaces alive
-        s = _SPACES[k] = T.DataSpace(lopt, mopt, depth, width)
+        s = _SPACES[k] = T.DataSpace(lopt, mopt, depth, width, stmts)
     return s
 
 
@@ -379,7 +406,7 @@ def _size(v):
     return 1 + sum(_size(x[1]) if v[0] == "M" else _size(x) for x in v[1:])
 
 
-def run_data(parser, lk, mk, sv, order, lopt, mopt, ofeats, data, tier, acc, big=False):
+def run_data(parser, lk, mk, sv, order, lopt, mopt, ofeats, data, tier, acc, big=False, stmts=False):
     t = _TIERS[tier]
     dfeats = set()
     T.features_of(data, dfeats)
@@ -402,16 +429,19 @@ def run_data(parser, lk, mk, sv, order, lopt, mopt, ofeats, data, tier, acc, big
                  features=list(dfeats) + ofeats + feats, outcome=outcome)
         if viol is not None:
             sig, msg, obs, exp = viol
-            acc.violation(sig, {"lopt": lk, "mopt": mk, "seq": sv, "order": order, "data": data, "layout": lay,
-                                "fd": fd_mode}, msg, obs, exp)
+            case = {"lopt": lk, "mopt": mk, "seq": sv, "order": order, "data": data, "layout": lay, "fd": fd_mode}
+            if stmts:
+                case["stmts"] = True
+            acc.violation(sig, case, msg, obs, exp)
 
 
 def run_shard(shard, tier, seed, acc):
     t = _TIERS[tier]
     kind, lk, mk, sv, order = shard[:5]
     lopt, mopt = _lopt(lk), _mopt(mk)
+    stmts = kind in ("stmt", "stmtbig")
     try:
-        parser = _parser(lk, mk, sv, order)
+        parser = _parser(lk, mk, sv, order, stmts)
     except Exception as e:  # noqa
         acc.case(features=["grammar-construction-failed"], outcome="construction:" + type(e).__name__)
         acc.violation("C05:valid-options-rejected:" + type(e).__name__,
@@ -419,16 +449,21 @@ def run_shard(shard, tier, seed, acc):
                       f"LLParser construction failed for an accepted option combination: {str(e)[-300:]}",
                       type(e).__name__, "a parser")
         return
-    ofeats = _opt_features(lopt, mopt, sv, order)
-    space = _space(lopt, mopt, t["depth"], t["width"])
+    ofeats = _opt_features(lopt, mopt, sv, order) + (["family:statements"] if stmts else [])
+    space = _space(lopt, mopt, t["depth"], t["width"], stmts)
     if kind == "small":
         it = space.upto(t["size"])
+    elif kind == "stmt":
+        it = space.upto(t["stmt_size"])
+    elif kind == "stmtbig":
+        it = space.values(t["stmt_big_size"], t["depth"])
     else:
         vals = space.values(t["big_size"], t["depth"])
         it = (v for i, v in enumerate(vals) if i % BIG_SLICES == shard[5])
     n = 0
     for data in it:
-        run_data(parser, lk, mk, sv, order, lopt, mopt, ofeats, data, tier, acc, big=(kind == "big"))
+        run_data(parser, lk, mk, sv, order, lopt, mopt, ofeats, data, tier, acc,
+                 big=(kind in ("big", "stmtbig")), stmts=stmts)
         n += 1
         if n % 128 == 0:
             if acc.expired():
@@ -441,7 +476,7 @@ def run_shard(shard, tier, seed, acc):
 def replay(case, acc):
     lk, mk, sv = case["lopt"], case["mopt"], case["seq"]
     lopt, mopt = _lopt(lk), _mopt(mk)
-    parser = build_parser(lopt, mopt, sv, case.get("order", "top-down"))
+    parser = build_parser(lopt, mopt, sv, case.get("order", "top-down"), bool(case.get("stmts")))
     res = judge(parser, lopt, mopt, case["data"], case["layout"], case["fd"], acc)
     acc.case()
     if res is not None and res[2] is not None:
